@@ -1456,14 +1456,14 @@ class _StmtMixin:
     def st_Break(self, st):
         fr = self.frames[-1]
         if fr.loop_stack:
-            fr.loop_stack[-1].brk.append(self.loop_local_guard())
             self.event("break", (), st)
+            fr.loop_stack[-1].brk.append(self.loop_local_guard())
 
     def st_Continue(self, st):
         fr = self.frames[-1]
         if fr.loop_stack:
-            fr.loop_stack[-1].cont.append(self.loop_local_guard())
             self.event("continue", (), st)
+            fr.loop_stack[-1].cont.append(self.loop_local_guard())
 
     def loop_local_guard(self):
         return self.local_guard()
